@@ -1664,11 +1664,23 @@ class SMTFormula(Formula):
         return 1
 
     def __neg__(self) -> "SMTFormula":
+        negated_formula = z3_push_in_negations(self.formula, negate=True)
+
+        # Pushing in the negation can simplify variables away (e.g., the negation of
+        # `str.len(x) > -1` is `false`); only the remaining ones may be passed on.
+        remaining = {str(symbol) for symbol in get_symbols(negated_formula)}
+
         return SMTFormula(
-            z3_push_in_negations(self.formula, negate=True),
-            *self.free_variables(),
-            instantiated_variables=self.instantiated_variables,
-            substitutions=self.substitutions,
+            negated_formula,
+            *[var for var in self.free_variables() if var.name in remaining],
+            instantiated_variables=FrozenOrderedSet(
+                [var for var in self.instantiated_variables if var.name in remaining]
+            ),
+            substitutions={
+                var: tree
+                for var, tree in self.substitutions.items()
+                if var.name in remaining
+            },
             auto_eval=self.auto_eval,
             auto_subst=self.auto_subst,
         )
